@@ -21,7 +21,7 @@ static uint32_t f2u(float f) { uint32_t u; memcpy(&u, &f, 4); return u; }
 //   temp is pure scratch: no caller reads it (noise_util.c passes noise_tx->temp and never looks at it), so its CONTENT is not
 //   compared - only the guard areas around its 2*N*N floats (out-of-bounds writes).  The forward output (tx_block) is read
 //   completely by svt_aom_noise_tx_filter (noise_util.c:90-108, all N*N complex entries, also those the transform only used as
-//   scratch), the inverse output is read for N*N floats (noise_util.c:113, noise_model.c:1413): outputs are compared bit-exactly
+//   scratch), the inverse output is read for N*N floats (noise_util.c:113, noise_model.c:1413-1416): outputs are compared bit-exactly
 //   (memcmp) over the whole poisoned allocation (64 guard floats + 2*N*N floats + 64 guard floats).
 //   The only caller in the encoder (svt_aom_wiener_denoise_2d, noise_model.c:1347/1353, block size DENOISING_BlockSize = 32,
 //   noise_model.h:24, chroma 32 >> 1) uses N = 32 (luma) and N = 16 (chroma); N = 4 and 8 are reachable only through
@@ -55,7 +55,7 @@ static const char *FFT_DOM[5] = {"integers 0..255", "integers 0..1023", "integer
                                  "8-bit pixels -> extract_block (planar fit removed, /255) -> * half-cos window",
                                  "10-bit pixels -> extract_block (planar fit removed, /1023) -> * half-cos window"};
 
-// same computation as get_half_cos_window (noise_model.c:1258-1269)
+// same computation as get_half_cos_window (noise_model.c:1262-1273)
 static void fft_window(int n) {
     const double pi = 3.141592653589793238462643383279502884;
     for (int y = 0; y < n; ++y) {
@@ -253,7 +253,7 @@ done:
 //
 // Call sites (Source/Lib/Encoder/Codec/palette.c): only dim 1 is ever used:
 //   palette.c:310  av1_calc_indices(data, centroids, color_map, rows * cols, k, 1)   (palette_rd_y)
-//   palette.c:476  av1_k_means(data, centroids, color_map, rows * cols, n, 1, max_itr)  (search_palette_luma, max_itr = 50, :407)
+//   palette.c:476  av1_k_means(data, centroids, color_map, rows * cols, n, 1, max_itr)  (search_palette_luma, max_itr = 50, :400)
 //   The dim 2 kernels have NO caller in this snapshot (the dispatching inlines palette.c:39-63 are only invoked with dim = 1);
 //   they are enumerated over the analogous domain (libaom uses them for the interleaved U,V samples of a chroma palette).
 // Domain the callers guarantee and the AVX2 code relies on (palette_avx2.c: loops step 8 / 16 samples, assert((n & 15) == 0)):
@@ -261,19 +261,19 @@ done:
 //     clipped to the picture (palette.c:211-241) whose aligned dimensions are multiples of 8 (EbResize.c:1068-1069), so rows and
 //     cols are multiples of 8 and n is a multiple of 64, n <= 4096.  Enumerated: all 14 AV1 block sizes with 8 <= w,h <= 64; the
 //     thorough tier adds every picture-edge crop (cols, rows) in {8,16,..,64}^2.
-//   * data = the source pixels as int (palette.c:409-422): 0..255, or 0..1023 when hbd_mode_decision is on (encoder_bit_depth 8 / 10).
+//   * data = the source pixels as int (palette.c:405-423): 0..255, or 0..1023 when hbd_mode_decision is on (encoder_bit_depth 8 / 10).
 //   * k = 2..8 (PALETTE_MIN_SIZE..PALETTE_MAX_SIZE), every value.
-//   * k-means start centroids (palette.c:472): centroids[i] = lb + (2 * i + 1) * (ub - lb) / k / 2 from the data bounds lb / ub
+//   * k-means start centroids (palette.c:474): centroids[i] = lb + (2 * i + 1) * (ub - lb) / k / 2 from the data bounds lb / ub
 //     (ascending, may contain duplicates when ub - lb is small -> empty clusters -> the lcg_rand16 re-seeding path, which is
 //     also taken for e.g. data {lo, lo+1, hi}).  k_means is only called when the block has 3..64 distinct colours and k <= colours
-//     (palette.c:404, :466-469); the enumeration is a superset (the kernels' semantics do not depend on the number of colours):
+//     (palette.c:398, :466-468); the enumeration is a superset (the kernels' semantics do not depend on the number of colours):
 //     every data pattern is run with every k.  Extra start sets outside the caller domain, labelled in the messages: all
 //     centroids equal, descending order; thorough also max_itr 1 and 2 (callers: 50 only).
 //   * calc_indices centroids (palette_rd_y): sorted ascending, duplicates removed (palette.c:290, :74-86); they are the most frequent
-//     colours (palette.c:431-450) or the k-means result (:476), possibly snapped to palette-cache colours (:289).  Generators
+//     colours (palette.c:428-448) or the k-means result (:476), possibly snapped to palette-cache colours (:289).  Generators
 //     enumerated: k-means start formula; C k-means result (sorted for dim 1); the k most frequent colours (dim 1); lo..lo+k-1;
 //     hi-k+1..hi; even spread lo..hi; extras outside the caller domain (labelled): all equal, descending.
-//   * centroids live in a 4-byte aligned stack array (palette.c:408 int centroids[PALETTE_MAX_SIZE]): quick runs k_means with the
+//   * centroids live in a 4-byte aligned stack array (palette.c:402 int centroids[PALETTE_MAX_SIZE]): quick runs k_means with the
 //     centroid array at +4 bytes from a 64-byte boundary and calc_indices with an aligned one; thorough runs both placements
 //     (dim 1: the 14 block sizes, not the crops; dim 2: only where the pair product is complete, k_means only n = 64), and the
 //     same holds for the extra max_itr values.
@@ -282,7 +282,7 @@ done:
 //   interleaved; the product "all pattern pairs x every k x every generator" is complete for the small blocks (quick: n <= 128
 //   for calc_indices, n = 64 for k_means; thorough: n <= 512 / n <= 128); for larger blocks the pair set is reduced to the pairs
 //   in which at least one pattern is all-min / texture / 3-colour texture (calc_indices: or all-max) or both are equal, still
-//   with every k (quick k_means and the thorough crops: only the pairs with a texture or both equal); in the quick tier and for
+//   with every k (k_means and the thorough crops: only the pairs with a texture or both equal); in the quick tier and for
 //   the thorough crops the generator then cycles with
 //   (p1 + p2 + k) instead of multiplying.  See pal_plan().
 // Outputs compared: the whole centroid allocation (64 guard ints + 16 + 64) and the whole index allocation (64 + n + 64 bytes),
@@ -347,7 +347,7 @@ static void pal_centroids(int gen, int dim, int n, int k, long hi, const int lb[
         km_c(data, P_cen_in, P_idx_t + 64, n, k, 50);
         if (dim == 1) qsort(P_cen_in, k, sizeof(int), pal_cmp_int);
     }
-    if (gen == PG_TOP) { // palette.c:431-450 (dim 1 only)
+    if (gen == PG_TOP) { // palette.c:428-448 (dim 1 only)
         static int cnt[1024];
         memset(cnt, 0, sizeof cnt);
         for (int i = 0; i < n; i++) cnt[data[i]]++;
@@ -386,7 +386,7 @@ static PalPlan pal_plan(Run *r, int mode, int dim, int n, int crop) {
     if (dim == 1) { p.extras = r->thorough && !crop; return p; }
     const int full_thr = r->thorough ? (mode ? 128 : 512) : (mode ? 64 : 128);
     p.pairs_reduced = crop || n > full_thr;
-    p.tex_only      = crop || (mode && !r->thorough);
+    p.tex_only      = crop || mode;
     p.gens_cycle    = p.pairs_reduced && (!r->thorough || crop);
     p.extras        = r->thorough && !p.pairs_reduced && (mode == 0 || n <= 64);
     return p;
